@@ -38,7 +38,7 @@ func rulesBedWriterLadder(c *Ctx, r *Report) {
 	}
 	r.analysed(where)
 	n := ruleFmtConst(c, r, w)
-	r.floor("FMT-CONST", n, 13, "Fprintf calls in BED.Write")
+	r.floor("FMT-CONST", n, 3, "Fprintf calls in BED.Write")
 	// struct declaration order must be the one this rule was written for
 	recv := w.Signature.Recv().Type().(*types.Pointer).Elem().Underlying().(*types.Struct)
 	var decl []string
